@@ -10,7 +10,7 @@ From LI Require Import Base.StrOps Base.StrLemmas Parser.Parse Parser.Json Parse
   Parser.Foreign Parser.ForeignProofs Parser.ForeignCheck
   Parser.RoundTripRef1 Parser.RoundTripRef2 Parser.RoundTripRef3 Parser.RoundTripRef4
   Parser.ForeignSound Parser.ForeignStack Parser.ForeignSound2 Parser.ForeignFull Parser.ForeignSound4 Parser.ForeignSound5
-  Parser.ForeignSound3 Parser.ForeignSound6.
+  Parser.ForeignSound3 Parser.ForeignSound6 Parser.ForeignSound7.
 
 (** * Stage 1 — round trip for sources with references
     Sources ([ritem], RoundTripRef1.v): text (no '<', '{', '$'), {{ var[, formatter] }}, components
@@ -150,24 +150,32 @@ Theorem C06b_sound_partial_model : forall idc sv vals dflt inherits ns L path it
       (forall fuel d, xdenote (xsrc (src_of_tree sv)) dflt inherits fuel L (map to_x items) = Some d -> pieces r' = pc_norm d).
 Proof. exact compiled_final_value_sound_model. Qed.
 
-(** What is NOT proved: that ParsedValue::new builds the shape [XRep] for EVERY printed source of the
-    full AST (canonical printer [xprint], well-formedness [xitems_wf] of ForeignFull.v).  Stage 1 proves
-    it for the sources above ([C06b_roundtrip_ref_shape] + [C06b_Rep_XRep]), see [C06b_parse_args_partial]. *)
+(** * the full statement, on the source AST of Foreign.v with its canonical printer
+    [xprint] / [xitems_wf] (ForeignFull.v): text, {{var}}, <comp>…</comp>, `$t(ns:a.b)` and
+    `$t(ns:a.b, {"k": "string", "n": 3, "b": true})` printed without padding; identifiers accepted by the
+    identifier oracle; distinct argument keys; argument strings hold text / variables / components /
+    argument-less references and no quote, backslash, control character or '}' in their text (a nested
+    argument object would need escaped quotes); literal arguments are booleans and u64 / negative i64
+    integers (a JSON string is a string argument; floats are outside the modelled JSON reader).
+    The source AST has no formatter: variables with formatters are covered by stage 1 and
+    [C06b_resolve_inline], not by the comparison with [xdenote].
+
+    the two printers agree on unpadded stage-1 sources ... *)
+Theorem C06b_xprint_canonical : forall items, forallb canonical items = true -> xprint_list (map to_x items) = rprint_list items.
+Proof. exact xprint_canonical. Qed.
+
+(** ... so ParsedValue::new (with the JSON reader model) builds the shape [XRep] of every well-formed
+    printed source of the full AST ... *)
 Definition C06b_parse_args_statement : Prop :=
   forall idc items v, xitems_wf idc items = true ->
   parse_top idc json_args_model true (xprint_list items) = Ok v -> XRep v items.
+Theorem C06b_parse_args : C06b_parse_args_statement.
+Proof. exact parse_args_holds. Qed.
 
-(** the proved part of it: every source of the full AST that is the image of a well-formed stage-1 source
-    without padding and formatter ([canonical]), on which the two printers agree *)
-Theorem C06b_xprint_canonical : forall items, forallb canonical items = true -> xprint_list (map to_x items) = rprint_list items.
-Proof. exact xprint_canonical. Qed.
-Theorem C06b_parse_args_partial : forall idc items v,
-  ritems_wfb idc items = true -> forallb plain items = true -> forallb canonical items = true ->
-  parse_top idc json_args_model true (xprint_list (map to_x items)) = Ok v -> XRep v (map to_x items).
-Proof. exact parse_args_partial. Qed.
-
-(** the FULL soundness statement: every final value of a project whose values are the parses of printed
-    well-formed sources of the full AST denotes the source-level inlining semantics *)
+(** ... and the FULL soundness statement holds: every final value of a project whose values are the
+    parses of printed well-formed sources denotes the source-level inlining semantics of its source,
+    at every fuel at which that semantics is defined.  (This is what [C06_sound_statement] of
+    Props/C06.v meant, with the missing hypothesis that the source ASTs describe the files.) *)
 Definition C06b_sound_statement : Prop :=
   forall idc vals dflt inherits (src : str -> keypath -> option (option (list xitem))),
   (forall L p, match src L p with
@@ -180,10 +188,8 @@ Definition C06b_sound_statement : Prop :=
   forall ns L path items v r', src L (ns, path) = Some (Some items) -> get_value_at vals L (ns, path) = Some (NVal v) ->
   final_value vals dflt inherits ns L path (NVal v) = Ok (Some r') ->
   forall fuel d, xdenote src dflt inherits fuel L items = Some d -> pieces r' = pc_norm d.
-
-(** it is reduced to the parser statement *)
-Theorem C06b_sound_from_parse_args : C06b_parse_args_statement -> C06b_sound_statement.
-Proof. exact sound_from_parse_args. Qed.
+Theorem C06b_sound : C06b_sound_statement.
+Proof. exact sound_holds. Qed.
 
 (** * non-vacuity: a concrete project (ASCII identifier oracle, the JSON reader model)
     en (default):  a = "Hello {{x}}"   b = "<b>$t( a )</b>!"   c = "$t(b) / $t(g.h)"   g.h = "deep"
